@@ -10,3 +10,4 @@ CONSTANTS
   Resizes <- NoResize
   MaxDepth = 3
   Emit = TRUE
+  CheckDump = FALSE
